@@ -226,6 +226,10 @@ func (tr *Tr) instr(fr *frame, ins ssa.Instruction) {
 		v := tr.coerceVal(tr.val(fr, x.X), x.X.Type())
 		v.Ty = x.X.Type()
 		set(x, tr.makeIface(v))
+		if _, isIface := x.X.Type().Underlying().(*types.Interface); !isIface {
+			// the dynamic type of this interface value is evident: method calls on it are resolved
+			tr.noteDyn(fr.vals[x].T, x.X.Type())
+		}
 		if ci := fr.closures[x.X]; ci != nil {
 			fr.closures[x] = ci
 		}
@@ -261,6 +265,7 @@ func (tr *Tr) instr(fr *frame, ins ssa.Instruction) {
 		fr.heap.m[dom] = tr.define(C.heapSort[dom], sto(C.hget(fr.heap, dom), ref, "((as const (Array "+ks+" Bool)) false)"), dom)
 		fr.heap.m[ln] = tr.define(C.heapSort[ln], sto(C.hget(fr.heap, ln), ref, bvI(0, 64)), ln)
 		fr.vals[x] = Val{T: ref, Ty: x.Type()}
+		tr.assume(fr.curReach, tr.wf(fr.vals[x]))
 	case *ssa.MakeChan:
 		ref := tr.alloc(fr, "mkchan")
 		fr.vals[x] = Val{T: ref, Ty: x.Type()}
@@ -456,10 +461,10 @@ func (tr *Tr) unop(fr *frame, x *ssa.UnOp, set func(ssa.Value, string)) {
 			tr.assume(fr.curReach, not(eq(r.T, "0")))
 		}
 		if g, ok := x.X.(*ssa.Global); ok && g.Pkg != nil && !strings.HasPrefix(g.Pkg.Pkg.Path(), modulePath) &&
-			strings.HasPrefix(g.Name(), "Err") && types.Identical(g.Type().(*types.Pointer).Elem(), types.Universe.Lookup("error").Type()) {
-			// sentinel errors of the standard library (io.EOF is spelled EOF and not covered): never nil
+			(strings.HasPrefix(g.Name(), "Err") || (g.Pkg.Pkg.Path() == "io" && g.Name() == "EOF")) && types.Identical(g.Type().(*types.Pointer).Elem(), types.Universe.Lookup("error").Type()) {
+			// sentinel errors of the standard library: never nil
 			tr.assume(fr.curReach, not(eq(app("i.typ", r.T), "0")))
-			tr.C.assumpt["exported Err* sentinel variables of non-module packages (e.g. io.ErrUnexpectedEOF) are non-nil"] = true
+			tr.C.assumpt["exported Err* sentinel variables of non-module packages (e.g. io.ErrUnexpectedEOF) and io.EOF are non-nil"] = true
 		}
 	case token.ARROW:
 		tr.vc.Abstract["chan-recv"]++
@@ -661,6 +666,14 @@ func (tr *Tr) typeAssert(fr *frame, x *ssa.TypeAssert, set func(ssa.Value, strin
 		// assertion to an interface type: succeeds iff the dynamic type implements it
 		ok = tr.implementsCond(v.T, at)
 		res = Val{T: v.T, Ty: at}
+		if dt := tr.ifaceDyn[v.T]; dt != nil && x.CommaOk {
+			defer func() {
+				// the result of a comma-ok assertion is the operand or the nil interface
+				if tup := fr.vals[x].Tuple; len(tup) == 2 {
+					tr.noteDyn(tup[0].T, dt)
+				}
+			}()
+		}
 	} else {
 		ok = eq(app("i.typ", v.T), strconv.Itoa(tr.C.typeID(at)))
 		res = tr.unboxIface(v.T, at)
